@@ -12,6 +12,10 @@ type sourceReferenceCollector struct {
 	matchPatternDeclarationRefs  map[string]int
 	matchPatternDeclarations     map[*cypher.PatternPart]struct{}
 	matchPatternDeclarationDepth int
+
+	// patternPropertiesDepth is above zero inside the property map of a node or relationship pattern. Unlike the
+	// pattern's own variables, a variable there is read: `match (c {rid: id(b)})` reads b.
+	patternPropertiesDepth int
 }
 
 func newSourceReferenceCollector() *sourceReferenceCollector {
@@ -91,8 +95,11 @@ func (s *sourceReferenceCollector) Enter(node cypher.SyntaxNode) {
 			}
 		}
 
+	case *cypher.Properties:
+		s.patternPropertiesDepth += 1
+
 	case *cypher.Variable:
-		if s.matchPatternDeclarationDepth == 0 {
+		if s.matchPatternDeclarationDepth == 0 || s.patternPropertiesDepth > 0 {
 			s.addVariable(typedNode)
 		}
 	}
@@ -101,6 +108,10 @@ func (s *sourceReferenceCollector) Enter(node cypher.SyntaxNode) {
 func (s *sourceReferenceCollector) Visit(cypher.SyntaxNode) {}
 
 func (s *sourceReferenceCollector) Exit(node cypher.SyntaxNode) {
+	if _, isProperties := node.(*cypher.Properties); isProperties {
+		s.patternPropertiesDepth -= 1
+	}
+
 	if patternPart, isPatternPart := node.(*cypher.PatternPart); isPatternPart && s.isMatchPatternDeclaration(patternPart) {
 		s.matchPatternDeclarationDepth -= 1
 	}
